@@ -42,7 +42,7 @@ def run_case(data):
         usable = sorted(s for s in m.streams if s not in w.tainted)
         op = ch.weighted([(8, 'open-local'), (8, 'open-peer'), (4, 'local-end'), (4, 'peer-end'), (3, 'respond'),
                           (2, 'peer-limit'), (2, 'local-limit'), (2, 'local-ack'), (3, 'query'), (2, 'wu-overflow'),
-                          (3, 'late-headers'), (2, 'info')])
+                          (3, 'late-headers'), (2, 'info'), (2, 'refused-open')])
         if op == 'open-local':
             if client:
                 w.send_headers(w.next_local_id(), 'final', ch.chance(48))
@@ -92,6 +92,32 @@ def run_case(data):
                 w.recv_data(sid, True)
             else:
                 w.recv_rst(sid)
+        elif op == 'refused-open':
+            # an opening send that raises (invalid header list, or text that cannot be encoded) opens nothing:
+            # the id stays unused and the next attempt on it meets the limit check like any other
+            bad = ch.pick([[(b':method', b'GET'), (b':scheme', b'https'), (b':authority', b'example.com'), (b'x', b'1')],
+                           list(REQ) + [(b'te', b'chunked')], list(REQ) + [('x-bad-text', 'v\udcff')]])
+            if client:
+                sid = w.next_local_id()
+                if m.send_headers_verdict(sid, 'final', False)[0] != M.PERMIT:
+                    continue
+                o = w.s.call('send_headers', sid, bad)
+            else:
+                # the response on a promised stream (the moment it starts to count)
+                res_l = [s for s in usable if m.get(s).state == M.RES_LOCAL]
+                if not res_l:
+                    continue
+                sid = ch.pick(res_l)
+                if m.send_headers_verdict(sid, 'final', False)[0] != M.PERMIT:
+                    continue
+                o = w.s.call('send_headers', sid, [(b':status', b'200'), ('x-bad-text', 'v\udcff')])
+            r.step('refused opening send', sid, o.brief())
+            if o.ok:
+                w.violate('invalid-header-list-accepted', repr(o.frames)[:100])
+                break
+            if o.out:
+                w.violate('refused-open-emitted', o.out.hex()[:40])
+            r.labels.add('refused-open')
         elif op == 'late-headers':
             # HEADERS the peer sent before it saw our reset of that stream: no new stream, so no limit applies
             cands = [s for s in usable if m.get(s).state == M.CLOSED and m.get(s).closed_by == 'send-rst' and
